@@ -511,3 +511,18 @@ end
 end Spec
 end Loader
 end ProcSim
+
+/-! ## The outcome of a model load, as C11 sees it (appended for `Props/C11.lean`; core Lean only) -/
+namespace ProcSim
+namespace Loader
+namespace Spec
+
+/-- accepted / rejected with the exception -/
+def outcomeOf {N : Type} (r : Except (LoadError N) (Proc N)) : Outcome N :=
+  match r with
+  | .ok _ => .accepted
+  | .error e => .rejected e
+
+end Spec
+end Loader
+end ProcSim
